@@ -45,6 +45,7 @@ from .choices import Choices
 from .proglib import D, P
 
 INT_KINDS = ("int",)
+OPT_KEYS = ("oa", "ob", "oc")
 KINDS = ("int", "list", "tuple", "dict", "nt", "dc")
 
 ALL_FEATURES = {
@@ -67,7 +68,8 @@ class TaskDef:
         self.leaf = False
         self.recover = False  # takes an error (or a list containing errors)
         self.version: Optional[str] = None
-        self.body_salt = 0  # changes the body text without changing semantics? no: changes value
+        self.body_salt = 0  # neutral edit marker (changes the source text only)
+        self.def_export: dict[str, Any] = {}  # @task(export_options={...})
 
     def sig(self) -> str:
         return f"{self.name}({', '.join(p[0] for p in self.params)})"
@@ -179,6 +181,9 @@ class GenConfig:
         self.p_call_option = 0.0
         self.allow_uncaught_error = True
         self.min_tasks = 2
+        self.opt_mode = False  # generate marker options at definition / call / export level
+        self.ctx_mode = None  # None | "unique" (every call gets a unique extra argument)
+        self.p_ctx = 0.35  # probability that a call carries update_context overrides
         for k, v in kw.items():
             assert hasattr(self, k), k
             setattr(self, k, v)
@@ -191,6 +196,7 @@ class Gen:
         self.prog = Program()
         self.closed_calls: dict[str, list[Any]] = {}  # kind -> closed call nodes (for dups)
         self.f = set(cfg.features)
+        self.unique = 0
 
     def has(self, feat: str) -> bool:
         return feat in self.f
@@ -216,6 +222,8 @@ class Gen:
             for j in range(nparams):
                 kind = "int" if ch.coin(0.7, "pkind") else kinds[ch.choice(len(kinds), "pkind2")]
                 t.params.append((chr(ord("a") + j), kind, None))
+            if cfg.ctx_mode == "unique" and i:
+                t.params.insert(0, ("u", "uniq", None))
             t.ret = "int" if (i == 0 or ch.coin(0.6, "ret")) else kinds[ch.choice(len(kinds), "ret2")]
             # executor mode
             modes = list(cfg.modes)
@@ -234,6 +242,15 @@ class Gen:
                     t.options["limits"] = {x: 1 + ch.choice(2, "lim-count") for x in names}
                 else:
                     t.options["limits"] = list(names)
+            if cfg.opt_mode and i:
+                for key in OPT_KEYS:
+                    if ch.coin(0.25, "def-opt"):
+                        t.options[key] = 100 + ch.choice(3, "def-opt-val")
+                if ch.coin(0.2, "def-export"):
+                    t.def_export = {OPT_KEYS[ch.choice(len(OPT_KEYS), "def-export-key")]:
+                                    200 + ch.choice(3, "def-export-val")}
+                if ch.coin(0.1, "def-prov-false"):
+                    t.options["prov"] = False
             if cfg.task_options and ch.coin(cfg.p_task_option, "topt?"):
                 t.options.update(cfg.task_options[ch.choice(len(cfg.task_options), "topt")])
         # Special recover tasks are appended on demand.
@@ -248,8 +265,11 @@ class Gen:
         # Defaults (expression-valued) on some non-main tasks.
         if self.has("defaults"):
             for t in prog.tasks[1:]:
-                if t.leaf and ch.coin(0.3, "default?") and t.params:
+                if t.leaf and ch.coin(0.3, "default?") and t.params and t.params[-1][1] != "uniq":
                     name, kind, _ = t.params[-1]
+                    if self.has("ctx") and kind == "int" and ch.coin(0.5, "default-getctx"):
+                        t.params[-1] = (name, kind, self.gen_getctx())
+                        continue
                     higher = [u for u in prog.tasks[t.idx + 1 :] if u.ret == kind and not u.raises]
                     if higher and ch.coin(0.5, "default-expr"):
                         u = higher[ch.choice(len(higher), "default-task")]
@@ -353,6 +373,10 @@ class Gen:
         kwargs = []
         nparams = len(callee.params)
         for j, (pname, pkind, pdefault) in enumerate(callee.params):
+            if pkind == "uniq":
+                self.unique += 1
+                args.append(("lit", 1000 + self.unique))
+                continue
             if pdefault is not None and j == nparams - 1 and ch.coin(0.5, "use-default"):
                 continue  # rely on the default
             if closed:
@@ -366,6 +390,23 @@ class Gen:
         opts: dict[str, Any] = {}
         if self.has("partial") and len(args) >= 1 and not kwargs and ch.coin(0.15, "partial?"):
             opts["partial"] = 1 + ch.choice(len(args), "partial-k") if len(args) > 1 else 1
+        if self.has("ctx") and ch.coin(self.cfg.p_ctx, "ctx?"):
+            opts["ctx"] = self.gen_ctx()
+        if self.cfg.opt_mode and not opts.get("partial"):
+            def optval():
+                if owner is not None and ch.coin(0.2, "opt-expr"):
+                    cands = [u for u in self.prog.tasks[callee.idx + 1:]
+                             if u.ret == "int" and not u.recover and not u.raises]
+                    if cands:
+                        u = cands[ch.choice(len(cands), "opt-expr-task")]
+                        return self.gen_call(u, [], self.cfg.max_depth, closed=True)
+                return ("lit", 300 + ch.choice(4, "opt-val"))
+            if ch.coin(0.35, "call-opt?"):
+                opts["options"] = {OPT_KEYS[ch.choice(3, "call-opt-key")]: optval()}
+            if ch.coin(0.3, "call-export?"):
+                opts["export"] = {OPT_KEYS[ch.choice(3, "call-export-key")]: optval()}
+                if opts.get("options") and ch.coin(0.5, "export-first"):
+                    opts["export_first"] = True
         if self.cfg.call_options and ch.coin(self.cfg.p_call_option, "copt?"):
             opts["options"] = dict(self.cfg.call_options[ch.choice(len(self.cfg.call_options), "copt")])
         node = ("call", callee.idx, args, kwargs, opts)
@@ -381,7 +422,16 @@ class Gen:
         if self.has("dups") and self.closed_calls.get(kind) and ch.coin(cfg.p_dup, "dup?"):
             cands = [c for c in self.closed_calls[kind] if c[1] > owner.idx]
             if cands:
-                return cands[ch.choice(len(cands), "dup-pick")]
+                node = cands[ch.choice(len(cands), "dup-pick")]
+                if self.has("ctx") and ch.coin(0.6, "dup-other-ctx"):
+                    # the same call under another (or no) context override
+                    opts = dict(node[4])
+                    if ch.coin(0.4, "dup-no-ctx"):
+                        opts.pop("ctx", None)
+                    else:
+                        opts["ctx"] = self.gen_ctx()
+                    node = (node[0], node[1], node[2], node[3], opts)
+                return node
         if not deep:
             if kind == "int":
                 if self.has("ops"):
@@ -390,6 +440,8 @@ class Gen:
                     prods += ["idx"]
                 if self.has("applyf"):
                     prods += ["applyf"]
+            if self.has("ctx") and kind == "int":
+                prods += ["getctx", "getctx"]
             if self.has("cond"):
                 prods += ["cond"]
             if self.has("catch") and self.has("errors"):
@@ -400,6 +452,8 @@ class Gen:
                 prods += ["tags"]
             if self.has("noprov"):
                 prods += ["noprov"]
+            if self.has("subrun"):
+                prods += ["subrun", "subrun"]
             if kind == "list":
                 if self.has("seq"):
                     prods += ["seq"]
@@ -425,6 +479,8 @@ class Gen:
                 core = self.gen_call(icallee, env, depth + 1, owner)
                 return self.wrap_kind(core, kind, env)
             return self.gen_call(callee, env, depth + 1, owner)
+        if p == "getctx":
+            return self.gen_getctx()
         if p == "op":
             sym = ["+", "-", "*", "==", "<", "&", "|", "/"][ch.choice(8, "op")]
             a = self.gen_expr("int", env, owner, depth + 1)
@@ -469,6 +525,16 @@ class Gen:
             return ("forkjoin", self.gen_expr(kind, env, owner, depth + 1))
         if p == "noprov":
             return ("noprov", self.gen_expr(kind, env, owner, depth + 1))
+        if p == "subrun":
+            inner = self.gen_expr(kind, env, owner, depth + 1)
+            opts = {"executor": ["default", "process"][ch.choice(2, "subrun-executor")],
+                    "new_execution": bool(ch.choice(2, "subrun-new-exec"))}
+            k = ch.choice(4, "subrun-cache")
+            if k == 1:
+                opts["cache_scope"] = "NONE"
+            elif k == 2:
+                opts["cache_scope"] = "CSE"
+            return ("subrun", inner, opts)
         if p == "tags":
             inner = self.gen_expr(kind, env, owner, depth + 1)
             which = ["tags", "job_tags", "execution_tags"][ch.choice(3, "tag-kind")]
@@ -478,7 +544,7 @@ class Gen:
             return ("seq", [self.gen_expr("int", env, owner, depth + 1) for _ in range(n)])
         if p == "map":
             cands = [u for u in self.prog.tasks[owner.idx + 1 :]
-                     if len(u.params) == 1 and u.params[0][1] == "int" and not u.recover
+                     if len(u.params) == 1 and u.params[0][1] in ("int",) and not u.recover
                      and u.ret == "int"]
             if not cands:
                 return ("list", [self.gen_expr("int", env, owner, depth + 1)])
@@ -510,6 +576,30 @@ class Gen:
                 return ("dc", [self.gen_expr("int", env, owner, depth + 1), mk()])
         raise AssertionError(p)
 
+    CTX_PATHS = ["x", "y", "n.p", "n.q", "n", "zz", "x.deep", "n.p.deeper", "m.r.s"]
+
+    def gen_getctx(self) -> Any:
+        path = self.CTX_PATHS[self.ch.choice(len(self.CTX_PATHS), "ctx-path")]
+        return ("getctx", path, 70 + self.ch.choice(3, "ctx-default"))
+
+    def gen_ctx(self) -> dict:
+        ch = self.ch
+        out: dict = {}
+        for _ in range(1 + ch.choice(2, "ctx-n")):
+            k = ch.choice(5, "ctx-key")
+            v = 10 + ch.choice(5, "ctx-val")
+            if k == 0:
+                out["x"] = v
+            elif k == 1:
+                out["y"] = v
+            elif k == 2:
+                out.setdefault("n", {})["p"] = v
+            elif k == 3:
+                out.setdefault("n", {})["q"] = v
+            else:
+                out.setdefault("m", {}).setdefault("r", {})["s"] = v
+        return out
+
     def recover_task(self, kind: str, single: bool) -> TaskDef:
         """Append a recover task (leaf) returning `kind`."""
         t = TaskDef(len(self.prog.tasks))
@@ -532,7 +622,12 @@ def _children(node: Any) -> list:
     if k in ("lit", "par", "getctx"):
         return []
     if k == "call":
-        return list(node[2]) + [n for _, n in node[3]]
+        extra = []
+        for grp in ("options", "export"):
+            for v in (node[4].get(grp) or {}).values():
+                if isinstance(v, tuple) and v and isinstance(v[0], str):
+                    extra.append(v)
+        return list(node[2]) + [n for _, n in node[3]] + extra
     if k in ("list", "tuple", "nt", "dc", "seq", "set"):
         return list(node[1])
     if k == "dict":
@@ -634,10 +729,12 @@ def expr_src(prog: Program, node: Any) -> str:
         callee = prog.tasks[tidx].name
         if opts.get("ctx") is not None:
             callee += f".update_context({lit_src(opts['ctx'])})"
+        o_src = e_src = ""
         if opts.get("options"):
-            callee += ".options(" + ", ".join(f"{a}={_opt_src(prog, v)}" for a, v in opts["options"].items()) + ")"
+            o_src = ".options(" + ", ".join(f"{a}={_opt_src(prog, v)}" for a, v in opts["options"].items()) + ")"
         if opts.get("export"):
-            callee += ".export_options(" + ", ".join(f"{a}={_opt_src(prog, v)}" for a, v in opts["export"].items()) + ")"
+            e_src = ".export_options(" + ", ".join(f"{a}={_opt_src(prog, v)}" for a, v in opts["export"].items()) + ")"
+        callee += (e_src + o_src) if opts.get("export_first") else (o_src + e_src)
         a = [S(x) for x in args]
         kw = [f"{n}={S(x)}" for n, x in kwargs]
         if opts.get("partial"):
@@ -716,6 +813,8 @@ def task_src(prog: Program, t: TaskDef) -> str:
     opts = dict(t.options)
     if t.version is not None:
         opts["version"] = t.version
+    if t.def_export:
+        opts["export_options"] = dict(t.def_export)
     deco = "@task(" + ", ".join(f"{k}={_opt_src(prog, v)}" for k, v in opts.items()) + ")"
     params = []
     for name, kind, default in t.params:
